@@ -298,7 +298,8 @@ def setup_ops():
     for k in (1, 2, 3):
         ops += [I(k, "NICK vnick%d" % k), I(k, "USER v%d 0 * :Verif %d" % (k, k))]
     ops += [I(1, "JOIN #verif"), I(2, "JOIN #verif"), I(1, "PRIVMSG #verif :secret-text-of-one"), I(2, "PRIVMSG #verif :secret-text-of-two"),
-            I(2, "PRIVMSG vnick1 :private-for-one-only"), "D:3:%s" % hx('{"Quitmessage":"gone"}')]
+            I(2, "PRIVMSG vnick1 :private-for-one-only"), "D:3:%s" % hx('{"Quitmessage":"gone"}'),
+            "L:1"]     # the rightful owner of session 1 keeps its long poll open while the matrix runs
     return ops
 
 
@@ -333,6 +334,11 @@ def monitor_request(o):
     """the property, on one response of the implementation (no model involved).  Returns (signature, text) or None."""
     path = unhx(o["p"]).decode("latin-1")
     status, cls = int(o["status"]), o["class"]
+    if o.get("stream") == "dead" and cls != "handled":
+        # the owner's open GET .../messages ended (or stopped delivering) although this request was refused;
+        # only a request carrying the session's own secret may supersede the owner's stream
+        return ("refused-request-had-effect:stream-cancelled", "%s %s answered %d %s, yet the open GetMessages stream of the session's owner was terminated"
+                % (o["m"], path, status, cls))
     effects = []
     if o["grew"] != "0":
         effects.append("raft log grew by " + o["grew"])
@@ -416,7 +422,8 @@ def run(ck, replay):
         "differentially tested), encoding/json (oracle), hashicorp/raft; non-leader paths (proxying) are modelled but not exercised (single node)"]
     ck.assumptions += ["secrets of distinct live sessions are distinct (createsession.go: 128 bytes of crypto/rand per session) — hypothesis of C11_other_secret only",
                        "requests reach the dispatchers only through the mux main() serves (scanned; the driver replicates the wiring)",
-                       "a handler, once entered, is the only code that proposes to raft or reads the output stream (the monitor checks log growth, state digest and response bytes of every refused request)"]
+                       "a handler, once entered, is the only code that proposes to raft or reads the output stream (the monitor checks log growth, state digest, response bytes of every refused "
+                       "request, and that the owner's open GetMessages long poll of session 1 survives it and still delivers a message posted afterwards)"]
     ok = ck.proof_obligations()
 
     facts, routes_v, slog = scan_routes()
